@@ -2736,7 +2736,16 @@ class Deb822FileElement(Deb822Element):
         # Note the special case where the file ends on a comment; here we insert a whitespace too
         # to be sure.  Otherwise we would have to check that there is an empty line before that
         # comment and that is too much effort.
-        if tail_element and not isinstance(tail_element, Deb822WhitespaceToken):
+        needs_separator = False
+        if tail_element is not None:
+            needs_separator = not isinstance(tail_element, Deb822WhitespaceToken)
+            # The last line of the file might be missing its newline; without it, the
+            # separator would merely terminate that line (e.g. merging the two paragraphs).
+            if isinstance(tail_element, Deb822ParagraphElement):
+                tail_element._add_final_newline_if_missing()
+            elif not tail_element.convert_to_text().endswith("\n"):
+                self._token_and_elements.append(self._set_parent(Deb822WhitespaceToken('\n')))
+        if needs_separator:
             self._token_and_elements.append(self._set_parent(Deb822WhitespaceToken('\n')))
         self._token_and_elements.append(self._set_parent(paragraph))
         paragraph.parent_element = self
